@@ -750,6 +750,15 @@ func (s *maState) call(c *ssa.Call) {
 		}
 		return
 	}
+	// a module helper that fills its destination like copy does (summary decided by the linear-fact engine)
+	if FillOracle != nil {
+		if cal := c.Call.StaticCallee(); cal != nil && !c.Call.IsInvoke() && cal.Signature.Recv() == nil {
+			if d, sr, ok := FillOracle(cal); ok && d < len(args) && sr < len(args) {
+				s.copyInto(c, args[d], args[sr])
+				return
+			}
+		}
+	}
 	// gens of module callees
 	if gen, ok := s.callGen[c]; ok {
 		// arguments other than the root-derived addresses must be old-independent
@@ -852,6 +861,10 @@ func (s *maState) copyInto(c *ssa.Call, dst, src ssa.Value) {
 		s.cur[li] = true
 		return
 	}
+	if LenAtLeastOracle != nil && LenAtLeastOracle(c, src, arr.Len()) {
+		s.cur[li] = true
+		return
+	}
 	s.partial[li] = fmt.Sprintf("copy may fill fewer than %d elements (no length fact for the source): %s", arr.Len(), describeInstr(c))
 }
 
@@ -949,6 +962,13 @@ func isLenOf(l ssa.Value, v ssa.Value) bool {
 // exactLen: len(v) == n known at b.
 // ExactLenOracle, when set, answers "len(v) == n on entry of block b" with the interprocedural linear-fact engine (E3).
 var ExactLenOracle func(v ssa.Value, b *ssa.BasicBlock, n int64) bool
+
+// FillOracle, when set, answers "this module function stores elements 0…len(args[src])-1 of args[dst], each with a
+// value independent of dst's previous content, on every normal return" (a hand-written copy loop).
+var FillOracle func(callee *ssa.Function) (dst, src int, ok bool)
+
+// LenAtLeastOracle, when set, answers "len(v) >= n right before instruction at" with the linear-fact engine.
+var LenAtLeastOracle func(at ssa.Instruction, v ssa.Value, n int64) bool
 
 func exactLen(v ssa.Value, b *ssa.BasicBlock) (int64, bool) {
 	for _, f := range guards.Facts(b) {
